@@ -92,6 +92,9 @@ mut("c05-raw-act2", "C05", FW, "        d->act[j] = mj_nextActivation(m, d, i, j
 mut("c05-no-restore", "C05", FW, "  // reset state and time\n  d->time = time;\n", "  // reset state and time\n", "rule=R-ONCE construct=mj_RungeKutta:time-restored")
 mut("c05-drop-case", "C05", SU, "      case mjJNT_HINGE:\n      case mjJNT_SLIDE:\n        // scalar update: same for rotation and translation", "      case mjJNT_HINGE:\n        // scalar update: same for rotation and translation",
     "rule=R-EXHAUST construct=mj_integratePosInd")
+CS = "src/engine/engine_core_smooth.c"
+mut("c04-position-stage-reads-ctrl", "C04", CS, "    case mjTRN_SLIDERCRANK:             // slider-crank\n      {\n",
+    "    case mjTRN_SLIDERCRANK:             // slider-crank\n      {\n        if (d->ctrl[m->actuator_ctrladr[i]] == 0) { break; }\n", "rule=R-STAGE-INPUT construct=mj_fwdPosition:ctrl")
 # ---- C09
 mut("c09-drop-flag", "C09", IN, "    if (!mjDISABLED(mjDSBL_EULERDAMP) && !mjDISABLED(mjDSBL_DAMPER)) {", "    if (!mjDISABLED(mjDSBL_EULERDAMP)) {", "rule=R-SIBLING-GUARD construct=EULER:flags")
 mut("c09-bias-flag", "C09", IN, "    mjd_smooth_vel(m, d, /* flg_bias = */ 1);\n\n    // gather qLU", "    mjd_smooth_vel(m, d, /* flg_bias = */ 0);\n\n    // gather qLU", "rule=R-SIBLING-GUARD construct=IMPLICIT:calls")
